@@ -50,6 +50,9 @@ def run(ctx):
               'zck_get_missing_range() and dl_range() are in the same loop: the request is recomputed after each '
               'response' if inside else 'the missing range is not recomputed per fetch', fn.file, fn.line, config=config)
         dlrules.copy_guard(ck, prog, config, 'C04-c')
+        # the request is recomputed from the chunk markings alone: no cursor kept in the context between requests
+        from ..rules import extra as _x4
+        _x4.check_range_purity(ck, prog, config, 'C04-c')
         # ---- g  a complete, well-formed multipart answer is accepted wherever the transport cuts it: the data state
         #         of the part scanner never holds an exhausted part (shared with C05-j)
         from ..rules import partstate
